@@ -780,6 +780,13 @@ def run(ctx: Ctx):
                                  str(ex)))
         ctx.log(f"translation failed (continuing with the description of the unchanged tree): {ex}")
         gen = {"Gen_C10.v": FALLBACK}
+    # the source normalisations the translator relies on: normalised == as written, on functions exercising every rule
+    try:
+        from translator.c10_norm import selftest
+        ctx.cov["normaliser_selftest_comparisons"] = selftest()
+    except Exception as ex:  # noqa: BLE001
+        ctx.broken.append(Broken("translation", "translator/c10_norm.py (self-test of the source normalisations)",
+                                 f"{type(ex).__name__}: {ex}"[:600]))
     core.proof_leg(ctx, gen, PROP_FILE)
     # the case files need the generated description even when the property file no longer compiles
     gdir = ctx.build / "gen"
